@@ -1,6 +1,6 @@
 SPECIFICATION Spec
-CONSTANTS Sizes = {0, 1, 32, 33, 100, 1100}  Limits = {0, 1, 33, 64, 1024}  FeedLens = {1}
-          MaxCounter = 40  MaxOps = 7  SimDepth = 1000
+CONSTANTS Sizes = {0, 1, 31, 32, 33, 64, 100, 1100}  Limits = {0, 1, 31, 33, 64, 96, 1024}  FeedLens = {1}
+          MaxCounter = 48  MaxOps = 12  SimDepth = 1000
 VIEW view
 CONSTRAINT Bounded
 INVARIANT TypeOK
